@@ -64,7 +64,7 @@ register("C04", "props.c04", ["ValidaProofs.C04"], 1500, 40000,
 register("C05", "props.c05", ["ValidaProofs.C05", "ValidaProofs.C05Walk"], 1500, 40000,
          "one case = a rule (path of 0-3 parts, value-kind condition tree of depth<=2, no cast) tested on a document grown along "
          "its path; distinct = (#parts, tested, valid, min(#failures,3), cast) tuples; non-trivial = tested and not valid")
-register("C06", "props.c06", ["ValidaProofs.C06"], 1000, 25000,
+register("C06", "props.c06", ["ValidaProofs.C06", "ValidaProofs.C06Report"], 1000, 25000,
          "one case = a cast-free schema of 0-5 (thorough 0-8) generated rules validated on a document grown along one rule's path, "
          "and the same rules in a seeded permutation; distinct = (#rules, valid, min(#failures,3), min(#tested,3)); "
          "non-trivial = at least two rules of which some but not all are valid")
